@@ -757,6 +757,58 @@ fn raw_exchange(addr: &str, bytes: &[u8], half_close: bool, read: bool) -> Optio
     Some(RawHttp { status, headers: hs, body: buf[sep + 4..].to_vec() })
 }
 
+/// Several requests on ONE connection (keep-alive, written back to back; the last one asks for
+/// the connection to be closed). Returns the answers in order (status, headers, body).
+pub fn one_connection(addr: &str, reqs: &[Vec<u8>]) -> Result<Vec<RawHttp>, String> {
+    let sa = addr.to_socket_addrs().map_err(|e| e.to_string())?.next().ok_or("no address")?;
+    let mut s = TcpStream::connect_timeout(&sa, Duration::from_secs(3)).map_err(|e| format!("connect: {e}"))?;
+    s.set_read_timeout(Some(Duration::from_secs(10))).ok();
+    for r in reqs {
+        s.write_all(r).map_err(|e| format!("write: {e}"))?;
+    }
+    s.flush().ok();
+    let mut buf = vec![];
+    let _ = s.read_to_end(&mut buf);
+    let mut out = vec![];
+    let mut p = 0usize;
+    while p < buf.len() {
+        let Some(e) = buf[p..].windows(4).position(|w| w == b"\r\n\r\n") else { break };
+        let head = String::from_utf8_lossy(&buf[p..p + e]).to_string();
+        let mut lines = head.split("\r\n");
+        let status: u16 = lines.next().and_then(|l| l.split(' ').nth(1)).and_then(|x| x.parse().ok()).ok_or_else(|| format!("bad status line in answer {}", out.len()))?;
+        let mut hs = vec![];
+        for l in lines {
+            if let Some((k, v)) = l.split_once(':') {
+                hs.push((k.trim().to_ascii_lowercase(), v.trim().as_bytes().to_vec()));
+            }
+        }
+        p += e + 4;
+        let mut body = vec![];
+        let chunked = hs.iter().any(|(k, v)| k == "transfer-encoding" && String::from_utf8_lossy(v).contains("chunked"));
+        let clen = hs.iter().find(|(k, _)| k == "content-length").and_then(|(_, v)| String::from_utf8_lossy(v).parse::<usize>().ok());
+        if chunked {
+            loop {
+                let Some(e2) = buf[p..].windows(2).position(|w| w == b"\r\n") else { break };
+                let n = usize::from_str_radix(String::from_utf8_lossy(&buf[p..p + e2]).trim(), 16).unwrap_or(0);
+                p += e2 + 2;
+                if n == 0 {
+                    p = (p + 2).min(buf.len());
+                    break;
+                }
+                let end = (p + n).min(buf.len());
+                body.extend_from_slice(&buf[p..end]);
+                p = (end + 2).min(buf.len());
+            }
+        } else if let Some(n) = clen {
+            let end = (p + n).min(buf.len());
+            body.extend_from_slice(&buf[p..end]);
+            p = end;
+        }
+        out.push(RawHttp { status, headers: hs, body });
+    }
+    Ok(out)
+}
+
 /// Uploads whose body never completes on the wire (declared length not delivered, chunked body
 /// cut short or with broken framing): each must be refused if it is answered at all, and must
 /// store nothing. Returns (findings, requests sent).
@@ -886,6 +938,55 @@ pub fn wire_session(seed: u64) -> (Vec<(String, String)>, u64) {
                 Ok(r) => findings.push((format!("bad-client-id-not-4xx|{name}"), format!("{m} {path} with client id {name}: answered {}", r.status))),
                 Err(e) => findings.push((format!("bad-client-id-no-answer|{name}"), format!("{m} {path} with client id {name}: no HTTP answer at all ({e})"))),
             }
+        }
+    }
+    // ---- requests of different clients on ONE keep-alive connection: each is answered as if it
+    // had come alone (nothing about a connection's earlier requests may stick to later ones)
+    {
+        let other = ids.clients[1];
+        let get = |path: &str, who: Option<Uuid>, close: bool| -> Vec<u8> {
+            let mut r = format!("GET {path} HTTP/1.1\r\nHost: {addr}\r\n");
+            if let Some(w) = who {
+                r.push_str(&format!("X-Client-Id: {w}\r\n"));
+            }
+            if close {
+                r.push_str("Connection: close\r\n");
+            }
+            r.push_str("\r\n");
+            r.into_bytes()
+        };
+        let gc = format!("/v1/client/get-child-version/{}", Uuid::nil());
+        let plan: Vec<(&str, Option<Uuid>)> = vec![
+            (gc.as_str(), Some(c)), (gc.as_str(), Some(other)), ("/v1/client/snapshot", Some(other)), ("/v1/client/snapshot", Some(c)),
+            (gc.as_str(), None), (gc.as_str(), Some(c)), ("/v1/client/snapshot", None), (gc.as_str(), Some(other)),
+        ];
+        // the same requests alone, each on a fresh connection
+        let mut alone = vec![];
+        for (path, who) in &plan {
+            nreq += 1;
+            let hs: Vec<(&str, String)> = who.map(|w| vec![("X-Client-Id", w.to_string())]).unwrap_or_default();
+            alone.push(http(&addr, "GET", path, &hs, None, false).map(|r| (r.status, r.body)));
+        }
+        let reqs: Vec<Vec<u8>> = plan.iter().enumerate().map(|(k, (path, who))| get(path, *who, k + 1 == plan.len())).collect();
+        nreq += plan.len() as u64;
+        match one_connection(&addr, &reqs) {
+            Ok(answers) => {
+                if answers.len() != plan.len() {
+                    findings.push(("keep-alive|answers-missing".into(), format!("{} requests on one connection got {} answers", plan.len(), answers.len())));
+                }
+                for (k, a) in answers.iter().enumerate() {
+                    let ok_cc = a.headers.iter().any(|(h, v)| h == "cache-control" && String::from_utf8_lossy(v).to_ascii_lowercase().contains("no-store"));
+                    if !ok_cc {
+                        NO_CC.with(|x| x.borrow_mut().push(format!("answer {k} on a keep-alive connection ({}) carries no Cache-Control: no-store", a.status)));
+                    }
+                    if let Some(Ok((st, body))) = alone.get(k) {
+                        if *st != a.status || *body != a.body {
+                            findings.push(("keep-alive|differs-from-alone".into(), format!("request {k} ({} as {:?}) answered {} / {} bytes on a connection that had carried other clients' requests, but {} / {} bytes on a connection of its own", plan[k].0, plan[k].1, a.status, a.body.len(), st, body.len())));
+                        }
+                    }
+                }
+            }
+            Err(e) => findings.push(("keep-alive|no-answer".into(), format!("requests on one keep-alive connection: {e}"))),
         }
     }
     // and the server is still there, unchanged
